@@ -36,6 +36,8 @@ type c19store struct {
 	tamper   func(v uint64, s *protocol.SignedSnapshot) *protocol.SignedSnapshot
 	batches  int
 	received map[string]int // signature -> times received through POST /batch
+	gate     chan struct{}  // if set: the next POST /batch signals arrived and waits for the gate
+	arrived  chan struct{}
 	srv      *httptest.Server
 }
 
@@ -54,7 +56,13 @@ func newC19store() *c19store {
 		for _, ss := range b.Snapshots {
 			s.received[string(ss.Signature)]++
 		}
+		gate, arrived := s.gate, s.arrived
+		s.gate, s.arrived = nil, nil
 		s.mu.Unlock()
+		if gate != nil {
+			close(arrived)
+			<-gate
+		}
 		w.WriteHeader(200)
 	})
 	mux.HandleFunc("/snapshot", func(w http.ResponseWriter, r *http.Request) {
@@ -461,6 +469,9 @@ func RunC19(c *lib.Ctx) {
 		if i == 1 {
 			first, size = total-3, 3
 		}
+		if i == 2 {
+			first, size = total-1, 1 // the batch's first snapshot IS the log's current version
+		}
 		exec("auditor", aud, memF, auditorAlts, first, size, rb, i)
 		exec("monitor", mon, incF, monitorAlts, first, size, rb, i)
 	}
@@ -484,6 +495,47 @@ func RunC19(c *lib.Ctx) {
 		c.Count("publisher_tasks_run", 1)
 	}
 	rp := c.Rand("publisher")
+	// overlapping batches while the first one is still being forwarded (slow store): the second task starts
+	// only after the first one's request has reached the store, so on correct code the shared snapshots are
+	// already marked as seen
+	for i := 0; i < c.Q(6, 40); i++ {
+		size := rp.Pick(3, 5, 8)
+		first := rp.Intn(total - 2*size)
+		b1, b2 := batchAt(first, size), batchAt(first+size-1-rp.Intn(2), size)
+		for _, ss := range append(append([]*protocol.SignedSnapshot{}, b1.Snapshots...), b2.Snapshots...) {
+			expect[string(ss.Signature)] = true
+		}
+		fresh := false
+		store.mu.Lock()
+		for _, ss := range b1.Snapshots {
+			if store.received[string(ss.Signature)] == 0 {
+				fresh = true
+			}
+		}
+		gate, arrived := make(chan struct{}), make(chan struct{})
+		if fresh {
+			store.gate, store.arrived = gate, arrived
+		}
+		store.mu.Unlock()
+		doneA := make(chan struct{})
+		go func() { run(pub, pubF, b1); close(doneA) }()
+		if fresh {
+			select {
+			case <-arrived:
+				run(pub, pubF, b2)
+				c.Count("publisher_overlaps_while_first_forward_in_flight", 1)
+			case <-doneA: // nothing new in b1 after all
+				run(pub, pubF, b2)
+			case <-time.After(10 * time.Second):
+				c.Inconclusive("publisher: first batch never reached the store")
+			}
+			close(gate)
+		} else {
+			run(pub, pubF, b2)
+		}
+		<-doneA
+		c.Count("publisher_tasks_run", 2)
+	}
 	for i := 0; i < c.Q(40, 400); i++ {
 		size := rp.Pick(1, 2, 5, 10, 30)
 		first := rp.Intn(total - size)
